@@ -289,7 +289,7 @@ func newHarnessMode(stream bool) *harness {
 				panic("dirty handler panics (recovery middleware must catch it)")
 			}
 		})
-		e.POST("/probe/:pp", func(c context.Context, ctx *app.RequestContext) {
+		e.Any("/probe/:pp", func(c context.Context, ctx *app.RequestContext) {
 			id := string(ctx.Request.Header.Peek("X-Probe"))
 			h.mu.Lock()
 			s := h.slots[id]
@@ -317,6 +317,32 @@ func (h *harness) run(frags ...string) (string, *rig.Result) {
 	sc := sconn.New(fr, sconn.EOF)
 	res := rig.Serve(h.e, sc, 4096, false, 20*time.Second)
 	return dateRe.ReplaceAllString(string(res.Out), ""), res
+}
+
+// probe variants: what a recycled object must not leak depends on what the next request
+// does NOT overwrite — so besides the form POST there is a body-less GET with value-less
+// query keys, and a POST whose query and form use value-less and empty pairs.
+const nProbeVariants = 3
+
+func probeReqV(v int, id string) string {
+	switch v {
+	case 1:
+		return "GET /probe/v?flag&pq&z HTTP/1.1\r\nHost: probe.host\r\nX-Probe: " + id + "\r\n\r\n"
+	case 2:
+		return "POST /probe/v?&flag&pq=1 HTTP/1.1\r\nHost: probe.host\r\nContent-Type: application/x-www-form-urlencoded\r\nContent-Length: 8\r\nX-Probe: " + id + "\r\n\r\npf&k&x=1"
+	}
+	return probeReq(id)
+}
+
+// dirty variants: different amounts of state to leave behind
+func dirtyReqV(v int, id string) string {
+	switch v {
+	case 1:
+		return "POST /dirty/x/y/z?flag=STALE1&pq=STALE2&z=STALE3&dq=1 HTTP/1.1\r\nHost: dirty.host\r\nContent-Type: application/x-www-form-urlencoded\r\nContent-Length: 30\r\nCookie: dc=1; dd=2\r\nX-Dirty: 1\r\nX-Conn: " + id + "\r\n\r\npf=STALE4&k=STALE5&x=STALE6&y=7"
+	case 2:
+		return "POST /dirty/x/y/z?dq=1&flag=STALE1 HTTP/1.1\r\nHost: dirty.host\r\nTransfer-Encoding: chunked\r\nTrailer: X-T\r\nX-Dirty: 1\r\nX-Conn: " + id + "\r\n\r\n10\r\nSTALE-BODY-STALE-\r\n4\r\nBODY\r\n0\r\nX-T: stale\r\n\r\n"
+	}
+	return dirtyReq(id)
 }
 
 func probeReq(id string) string {
@@ -379,17 +405,21 @@ func work(w *mon.W) {
 	// still refers to it shows up as 0xDD bytes in the handler views
 	standard.VerifPoisonEnabled = true
 	// fresh reference
-	fresh := newHarness()
-	fresh.slots["ref000000000"] = &slot{}
-	refOut, _ := fresh.run(probeReq("ref000000000"))
-	refDump := fresh.slots["ref000000000"].dump
+	var refOuts, refDumps [nProbeVariants]string
+	var fresh *harness
+	for v := 0; v < nProbeVariants; v++ {
+		fresh = newHarness()
+		fresh.slots["ref000000000"] = &slot{}
+		refOuts[v], _ = fresh.run(probeReqV(v, "ref000000000"))
+		refDumps[v] = fresh.slots["ref000000000"].dump
+		if refDumps[v] == "" {
+			w.Note("reference probe did not run")
+			return
+		}
+	}
 	_, ngetters := dump(fresh.e.NewContext())
 	if w.Shard == 0 {
 		w.Count("getters_in_dump", int64(ngetters))
-	}
-	if refDump == "" {
-		w.Note("reference probe did not run")
-		return
 	}
 	h := newHarness()
 	names := map[string]bool{}
@@ -399,6 +429,9 @@ func work(w *mon.W) {
 		tmp := h.e.NewContext()
 		s.prog = genProgram(r, tmp, 1+r.Intn(8))
 		s.panicEnd = r.Chance(8)
+		pv, dv := r.Intn(nProbeVariants), r.Intn(3)
+		refDump, refOut := refDumps[pv], refOuts[pv]
+		w.Count(fmt.Sprintf("dirty_variant_%d_probe_variant_%d", dv, pv), 1)
 		var ds []string
 		for _, mc := range s.prog {
 			ds = append(ds, mc.desc)
@@ -420,7 +453,9 @@ func work(w *mon.W) {
 			delete(h.slots, id)
 			h.mu.Unlock()
 		}()
-		c.Detail = func() interface{} { return map[string]interface{}{"program": ds, "panic_at_end": s.panicEnd} }
+		c.Detail = func() interface{} {
+			return map[string]interface{}{"program": ds, "panic_at_end": s.panicEnd, "dirty_request": dirtyReqV(dv, id), "probe_request": probeReqV(pv, id)}
+		}
 		w.Count("histories", 1)
 		compare := func(where, out string) bool {
 			if s.dump == "" {
@@ -442,7 +477,7 @@ func work(w *mon.W) {
 			return true
 		}
 		// same keep-alive connection
-		out, res := h.run(dirtyReq(id), probeReq(id))
+		out, res := h.run(dirtyReqV(dv, id), probeReqV(pv, id))
 		if res.Hang {
 			c.Violate("hang", "Serve did not finish after program %v", ds)
 			return
@@ -462,7 +497,7 @@ func work(w *mon.W) {
 		// new connection, pooled context
 		s.dump = ""
 		s.probePtr = 0
-		out, res = h.run(probeReq(id))
+		out, res = h.run(probeReqV(pv, id))
 		if res.Hang || res.Panic != nil {
 			c.Violate("probe-crash", "probe on a new connection hung or panicked after program %v: %v", ds, res.Panic)
 			return
@@ -472,7 +507,7 @@ func work(w *mon.W) {
 			return
 		}
 		if len(s.prog) >= 2 {
-			w.Shape(mon.Hash64(strings.Join(ds, ";"), s.panicEnd))
+			w.Shape(mon.Hash64(strings.Join(ds, ";"), s.panicEnd, pv, dv))
 		}
 		if w.WantSample() && len(s.prog) >= 3 {
 			w.Sample(map[string]interface{}{"program": ds, "panic_at_end": s.panicEnd, "mutator_panics_caught": s.panics})
